@@ -907,6 +907,9 @@ func (fr *Frame) applyAnnot(st *State, a *Annot, label string, assert, assumeAft
 	if assert {
 		for _, g := range a.Ghosts {
 			st.ghosts[g.Name] = se.evalTerm(g.E)
+			if traceOn {
+				fmt.Fprintf(os.Stderr, "trace: ghost %s = %s at %s (state %p)\n", g.Name, st.ghosts[g.Name], label, st)
+			}
 		}
 		for _, l := range a.Lemmas {
 			fr.lemma(st, se, l, label)
@@ -1025,6 +1028,20 @@ func (fr *Frame) lemma(st *State, se *SpecEnv, l LemmaCall, label string) {
 		fr.oblige(st, label+":lemma-hyp", F.And(F.Le(F.I64(0), a), F.Le(F.I64(0), b)), "hypotheses of "+l.Src)
 		st.pc = F.And(st.pc, F.Le(F.I64(0), F.Mul(a, b)))
 		fr.v.usedLemmas["mulnonneg"] = true
+	case "euclid":
+		// euclid(x, y) for x >= 0, y >= 1 (both obligations at the point of use): 0 <= y*(x div y) <= x < y*(x div y) + y.
+		// The instance is itself an obligation, proved in isolation (it is the definition of integer division), then
+		// available as a fact: division by a variable is outside what the solvers do unprompted inside a large goal.
+		if len(args) != 2 {
+			unsup("euclid(x, y)")
+		}
+		x, y := args[0], args[1]
+		q := F.Div(x, y)
+		fact := F.And(F.Le(F.I64(0), q), F.Le(F.Mul(y, q), x), F.Lt(x, F.Add(F.Mul(y, q), y)))
+		iso := &State{mem: st.mem, pc: F.And(F.Le(F.I64(0), x), F.Le(F.I64(1), y)), ghosts: st.ghosts, srcVar: st.srcVar, srcAdr: st.srcAdr, envs: st.envs, cnt: st.cnt}
+		fr.oblige(iso, label+":lemma-euclid", fact, l.Src)
+		fr.oblige(st, label+":lemma-hyp", F.And(F.Le(F.I64(0), x), F.Le(F.I64(1), y)), "hypotheses of "+l.Src)
+		st.pc = F.And(st.pc, fact)
 	case "divsplit":
 		// x >= 0, a > 0, b > 0 constants: x div a == b*(x div (a*b)) + (x div a) mod b. The instance is itself an
 		// obligation (proved in isolation from the step it helps), then available as a fact.
